@@ -659,6 +659,22 @@ def shared_instances_guard_their_state(ck, F, rid):
         roots = [f for f in F.fns.values() if f.cls == q and f.body is not None and f.name.split("::")[-1] in ("process", "format", "filter", "send", "attributes", "flush")]
         reach = F.reachable_from(roots, virtual=False) if roots else set()
         bad, n_w = [], 0
+
+        def called_under_lock(fn_, depth):
+            """a helper of the class that is only ever called with the object's lock held (every call site reachable from the entry points)"""
+            if depth > 3 or fn_.id in {r_.id for r_ in roots}:
+                return False
+            sites = [(g_, c_) for g_ in (F.fns.get(i_) for i_ in reach) if g_ is not None and g_.body is not None for c_ in g_.calls() if c_.get("fn") == fn_.id]
+            if not sites:
+                return False
+            for g_, c_ in sites:
+                gg = Graph(g_)
+                lf_ = LockFlow(F, g_, gg)
+                k_ = gg.site_of(c_)
+                h_ = {m for m, _ in lf_.IN.get(k_, ())} if k_ is not None else set()
+                if not (h_ & mutexes) and not called_under_lock(g_, depth + 1):
+                    return False
+            return True
         for fl in fields:
             fq = q + "::" + fl["name"]
             if fq in mutexes:
@@ -672,7 +688,7 @@ def shared_instances_guard_their_state(ck, F, rid):
                 lf = LockFlow(F, f_, g)
                 k = g.site_of(n_)
                 held = {m for m, _ in lf.IN.get(k, ())} if k is not None else set()
-                if not (held & mutexes):
+                if not (held & mutexes) and not called_under_lock(f_, 0):
                     bad.append((f_, n_, fl["name"]))
         for f_, n_, nm in bad[:3]:
             ck.ob(rid, sitestr(f_, n_), False, "%s::instance() hands one %s to every pipeline that asks for it, and %s writes its member %s without holding a lock of the object: two pipelines (an installed logger "
